@@ -921,7 +921,7 @@ func TestCheck(t *testing.T) {
 			}
 		}
 		// free search with weighted dimensions
-		c.Rapid("bitmatrix_random", c.N(2500, 20000), mprop("bitmatrix_random", 0, 0))
-		c.Rapid("bitarray_random", c.N(4000, 30000), aprop("bitarray_random", -2))
+		c.Rapid("bitmatrix_random", c.N(2500, 60000), mprop("bitmatrix_random", 0, 0))
+		c.Rapid("bitarray_random", c.N(4000, 90000), aprop("bitarray_random", -2))
 	})
 }
